@@ -81,9 +81,11 @@ def analyse(sh, items):
         fam = 'MMX-SSE' if ('xmm' in sig or 'mm' in sig.split(',') or '#' in mname) else family(mn)
         if fam == 'MMX-SSE':
             sig = '*'
+            if '67' not in pc and 'seg' not in pc:
+                fam = 'MMX-SSE:' + mname        # one key per table row (a family-wide key would hide a newly broken row)
         if '67' in pc:
-            fam, sig = ('addr16' if fam != 'MMX-SSE' else fam), '*'
-        elif 'seg' in pc and fam != 'MMX-SSE':
+            fam, sig = ('addr16' if not fam.startswith('MMX-SSE') else fam), '*'
+        elif 'seg' in pc and not fam.startswith('MMX-SSE'):
             fam = 'seg-override'
         wit = {'bytes': bb.hex()}
         canonical = canon_asm[i][0] == bb
